@@ -69,6 +69,7 @@ type Interp struct {
 	errTypes map[string]*types.Named
 	curFrame *frame
 	curPos   token.Pos
+	secDur   map[*smt.Term]*smt.Term // duration term (seconds*1e9) -> its second count
 }
 
 type Observation struct {
